@@ -79,8 +79,8 @@ inline std::string g_scheme(Tape &t) {
 }
 
 inline std::string g_dec_octet(Tape &t) {
-  static const int v[] = {0, 1, 9, 10, 99, 100, 127, 199, 200, 249, 250, 255, 25, 26, 2};
-  if (t.chance(2, 3)) return std::to_string(v[t.below(15)]);
+  static const int v[] = {0, 1, 9, 10, 99, 100, 127, 199, 200, 249, 250, 255, 25, 26, 2, 192, 168, 172, 16, 224};
+  if (t.chance(2, 3)) return std::to_string(v[t.below(20)]);
   return std::to_string(t.below(256));
 }
 inline std::string g_ipv4(Tape &t) {
@@ -387,19 +387,20 @@ inline u32s g_noise(Tape &t, bool wideExtras, int *arm = nullptr) {
 // G_pair: correlated (base, reference) and (source, base) pairs built from one
 // shared pool, so that "same scheme", "same host but other port", "path is a
 // prefix", "equal up to the last segment" ... all occur often.
-inline const std::vector<std::string> &pool_schemes() { static const std::vector<std::string> v = {"s", "t", "http", "S", "svn+ssh"}; return v; }
+inline const std::vector<std::string> &pool_schemes() { static const std::vector<std::string> v = {"s", "t", "http", "S", "svn+ssh", "https", "file", "ftp", "ws"}; return v; }  // incl. schemes with well-known default ports / special handling elsewhere
 inline GenAuth g_pool_auth(Tape &t) {
   GenAuth a;
   // IP hosts come in groups that differ in one half / one octet only, and in spellings of one value
   static const std::vector<std::string> hosts = {"h", "g", "H", "", "1.2.3.4", "[::1]", "[0:0:0:0:0:0:0:1]", "[v1.a]", "h%41",
-                                                 "[::2]", "[1::1]", "1.2.3.5", "2.2.3.4", "[v1.b]", "[V1.a]", "[::1.2.3.4]", "hh", "v1.a"};
-  static const int kinds[] = {1, 1, 1, 1, 2, 3, 3, 4, 1, 3, 3, 2, 2, 4, 4, 3, 1, 1};
+                                                 "[::2]", "[1::1]", "1.2.3.5", "2.2.3.4", "[v1.b]", "[V1.a]", "[::1.2.3.4]", "hh", "v1.a",
+                                                 "localhost", "127.0.0.1", "[::ffff:1.2.3.4]", "[64:ff9b::102:304]", "0.0.0.0", "255.255.255.255", "locations"};
+  static const int kinds[] = {1, 1, 1, 1, 2, 3, 3, 4, 1, 3, 3, 2, 2, 4, 4, 3, 1, 1, 1, 2, 3, 3, 2, 2, 1};
   uint32_t i = t.below((uint32_t)hosts.size());
   a.host = hosts[i]; a.hostKind = kinds[i];
   a.hasUser = t.chance(1, 5);
   if (a.hasUser) a.user = t.chance(1, 4) ? "" : (t.coin() ? "u" : "w:p");
   a.hasPort = t.chance(1, 4);
-  if (a.hasPort) a.port = t.chance(1, 4) ? "" : (t.coin() ? "80" : "81");
+  if (a.hasPort) { static const std::vector<std::string> ports = {"80", "81", "80", "81", "443", "21", "0", "080"}; a.port = t.chance(1, 4) ? "" : t.pick(ports); }  // incl. default ports of the pool's schemes
   return a;
 }
 inline std::string g_pool_path(Tape &t, bool hasScheme, bool hasAuth, int flavor, int maxSegs = 5) { return g_path(t, hasScheme, hasAuth, flavor, maxSegs); }
